@@ -153,6 +153,7 @@ Section Loop.
   | PTry (p h : prog)                    (* try: p  except Exception: h   (ExitMainLoop, SystemExit pass) *)
   | PApi (c : api)
   | PSt (f : U -> U * prog)              (* read / update the handlers' own state, choose how to go on *)
+  | PWhile (c : U -> bool) (b : prog)    (* while c(state): b *)
   | PEmit (e : event).
 
   Record lstate := {
@@ -425,6 +426,11 @@ Section Loop.
           match o with OThrow XError => exec f (CProg h) s1 | _ => (o, s1) end
         | PApi a => exec f (CApi a) s
         | PSt g => let '(u', p') := g (ust s) in exec f (CProg p') (s <| ust := u' |>)
+        | PWhile c b =>
+          if c (ust s) then
+            let '(o, s1) := exec f (CProg b) s in
+            match o with ONormal => exec f (CProg (PWhile c b)) s1 | _ => (o, s1) end
+          else (ONormal, s)
         | PEmit e => (ONormal, emit (user_event e) s)
         end
       end
